@@ -65,6 +65,11 @@ func contractMentions(c *Contract, p string) bool {
 			return true
 		}
 	}
+	for _, sc := range c.MaintainsScope {
+		if hasProp(sc, p) {
+			return true
+		}
+	}
 	for _, ls := range c.Loops {
 		for _, cl := range ls.Invs {
 			if hasProp(cl.Props, p) {
@@ -98,6 +103,9 @@ func (w *World) planFor(prop string, cfg *RunCfg) []workItem {
 		}
 	}
 	items = append(items, w.sweepsFor(prop, cfg)...)
+	if prop == "C03" {
+		items = w.encoderSafetySweep(items)
+	}
 	return items
 }
 
